@@ -25,6 +25,7 @@ ASSUMPTIONS = ["values given to set_params always come from a sibling configurat
 TOLERANCES = {"behaviour after set_params": "exact for deterministic models (one thread, one seed); 1e-9 for NMF"}
 
 
+INTERDEPENDENT = ("TransferTransformer:interdependent",)
 HOLDERS = ("SkBase", "SkBaseLearner", "SkBaseClassifier", "SkBaseRegressor", "SkBaseTransform")
 
 
@@ -124,6 +125,14 @@ def check(case):
         kind = op[0]
         x, other = (a, b) if op[1] == 0 else (b, a)
         if kind == "clone":
+            if name in INTERDEPENDENT and not hasattr(x.estimator, x.method):
+                # a single-key update left a (estimator, method) pair the constructor documents it refuses: clone must refuse, not repair
+                try:
+                    clone(x)
+                except AssertionError:
+                    labels.add("invalid-combination-refused-by-constructor")
+                    continue
+                raise Violation("clone:accepts-unavailable-method", "clone built a %s whose estimator %s has no %r" % (name, type(x.estimator).__name__, x.method), facts)
             c = _guard("clone", lambda: clone(x), facts)
             require(R.params_image(c) == R.params_image(x), "clone:params-differ", _diff(R.params_image(c), R.params_image(x)), facts)
         elif kind == "set":
